@@ -102,11 +102,13 @@ Fixpoint wt (t : gotype) (v : goval) {struct t} : bool :=
   | _, _ => false
   end.
 
-(* no nil pointer anywhere inside *)
+Definition is_nil (v : goval) : bool := match v with GNil => true | _ => false end.
+Definition is_ptr (t : gotype) : bool := match t with TPtr _ => true | _ => false end.
+
+(* no pointer to a nil pointer anywhere inside (pointers are transparent in the script: such a pointer reads as nil) *)
 Fixpoint solid (t : gotype) (v : goval) {struct t} : bool :=
   match t, v with
-  | TPtr x, GBox y => solid x y
-  | TPtr _, _ => false
+  | TPtr x, GBox y => solid x y && negb (is_ptr x && is_nil y)
   | TSlice x, GSlice l => forallb (solid x) l
   | TArray _ x, GArray l => forallb (solid x) l
   | TMap x, GMap m => forallb (fun kv => solid x (snd kv)) m
@@ -260,80 +262,57 @@ Lemma place_same t v : t <> TIface -> place t (Some (t, v)) = Ok v.
 Proof. intros H. unfold place. rewrite assignable_refl. destruct t; try reflexivity. contradiction. Qed.
 
 Definition conv_elem (h : heap) (f : nat) (et : gotype) (x : robj) : res goval :=
-  do tvx <- to_go h f false et x ;; place et tvx.
+  do tvx <- to_go h f false et x ;; match tvx with None => Ok (zero et) | Some _ => place et tvx end.
+
+Lemma elems_mapM h f et l :
+  (fix elems (et : gotype) (l : list robj) {struct l} : res (list goval) :=
+     match l with
+     | [] => Ok []
+     | x :: r => do tvx <- to_go h f false et x;;
+                 do g <- match tvx with
+                         | Some _ => place et tvx
+                         | None => Ok (zero et)
+                         end;; do gs <- elems et r;; Ok (g :: gs)
+     end) et l = mapM (conv_elem h f et) l.
+Proof.
+  induction l as [|x r IH]; [reflexivity|]. cbn [mapM]. rewrite <- IH. unfold conv_elem.
+  destruct (to_go h f false et x) as [[tvx|]| | |]; reflexivity.
+Qed.
 
 Lemma to_go_slice h f d et l : raw_slice et = false ->
   to_go h (S f) d (TSlice et) (RList l) = (do gs <- mapM (conv_elem h f et) l ;; Ok (Some (TSlice et, GSlice gs))).
 Proof.
-  intros H.
-  assert (E : forall l, (fix elems (et : gotype) (l : list robj) {struct l} : res (list goval) :=
-        match l with
-        | [] => Ok []
-        | x :: r => do tvx <- to_go h f false et x;; do g <- place et tvx;; do gs <- elems et r;; Ok (g :: gs)
-        end) et l = mapM (conv_elem h f et) l).
-  { induction l0 as [|x r IH]; [reflexivity|]. cbn [mapM]. rewrite <- IH. unfold conv_elem.
-    destruct (to_go h f false et x); reflexivity. }
-  cbn [to_go under].
-  destruct et as [|k| | | | |id u|x|x|n x|x|id fs|]; try destruct k; try discriminate H; rewrite E; reflexivity.
+  intros H. cbn [to_go under].
+  destruct et as [|k| | | | |id u|x|x|n x|x|id fs|]; try destruct k; try discriminate H; rewrite elems_mapM; reflexivity.
 Qed.
-
-Fixpoint amapM (g : robj -> res tv) (et : gotype) (room : nat) (l : list robj) {struct l} : res (list goval) :=
-  match l with
-  | [] => Ok []
-  | x :: r => do tvx <- g x ;;
-              match room with
-              | O => Panic
-              | S room' => do y <- place et tvx ;; do ys <- amapM g et room' r ;; Ok (y :: ys)
-              end
-  end.
 
 Lemma to_go_array h f d n et l :
   to_go h (S f) d (TArray n et) (RList l) =
-  (do gs <- amapM (to_go h f false et) et n l ;; Ok (Some (TArray n et, GArray (gs ++ repeat (zero et) (n - length l))))).
-Proof.
-  assert (E : forall room l, (fix aelems (et : gotype) (room : nat) (l : list robj) {struct l} : res (list goval) :=
-        match l with
-        | [] => Ok []
-        | x :: r => do tvx <- to_go h f false et x;;
-                    match room with
-                    | O => Panic
-                    | S room' => do g <- place et tvx;; do gs <- aelems et room' r;; Ok (g :: gs)
-                    end
-        end) et room l = amapM (to_go h f false et) et room l).
-  { intros room l0. revert room. induction l0 as [|x r IH]; intros room; [reflexivity|]. cbn [amapM].
-    destruct (to_go h f false et x); try reflexivity. destruct room; [reflexivity|]. rewrite IH. reflexivity. }
-  cbn [to_go under]. rewrite E. reflexivity.
-Qed.
+  (if Nat.ltb n (length l) then Err
+   else do gs <- mapM (conv_elem h f et) l ;; Ok (Some (TArray n et, GArray (gs ++ repeat (zero et) (n - length l))))).
+Proof. cbn [to_go under]. rewrite elems_mapM. reflexivity. Qed.
 
-Definition conv_entry (h : heap) (f : nat) (et : gotype) (kv : str * robj) : res (option (str * goval)) :=
+Definition conv_entry (h : heap) (f : nat) (et : gotype) (kv : str * robj) : res (str * goval) :=
   do tvx <- to_go h f false et (snd kv) ;;
-  match tvx with
-  | None => Ok None
-  | Some _ => do g <- place et tvx ;; Ok (Some (fst kv, g))
-  end.
-Fixpoint emapM (g : str * robj -> res (option (str * goval))) (m : list (str * robj)) : res (list (str * goval)) :=
-  match m with
-  | [] => Ok []
-  | kv :: r => do e <- g kv ;; do es <- emapM g r ;; Ok (match e with Some x => x :: es | None => es end)
-  end.
+  do g <- (match tvx with None => Ok (zero et) | Some _ => place et tvx end) ;; Ok (fst kv, g).
 
 Lemma to_go_map h f d et m :
-  to_go h (S f) d (TMap et) (RMap m) = (do gs <- emapM (conv_entry h f et) m ;; Ok (Some (TMap et, GMap gs))).
+  to_go h (S f) d (TMap et) (RMap m) = (do gs <- mapM (conv_entry h f et) m ;; Ok (Some (TMap et, GMap gs))).
 Proof.
   assert (E : forall m, (fix entries (et : gotype) (m : list (str * robj)) {struct m} : res (list (str * goval)) :=
         match m with
         | [] => Ok []
         | (k, x) :: r =>
             do tvx <- to_go h f false et x;;
-            match tvx with
-            | Some _ => do g <- place et tvx;; do gs <- entries et r;; Ok ((k, g) :: gs)
-            | None => entries et r
-            end
-        end) et m = emapM (conv_entry h f et) m).
-  { induction m0 as [|[k x] r IH]; [reflexivity|]. cbn [emapM]. unfold conv_entry at 1. cbn [fst snd].
+            do g <- match tvx with
+                    | Some _ => place et tvx
+                    | None => Ok (zero et)
+                    end;; do gs <- entries et r;; Ok ((k, g) :: gs)
+        end) et m = mapM (conv_entry h f et) m).
+  { induction m0 as [|[k x] r IH]; [reflexivity|]. cbn [mapM]. unfold conv_entry at 1. cbn [fst snd].
     destruct (to_go h f false et x) as [[tvx|]| | |]; cbn [bind]; try reflexivity.
-    - destruct (place et (Some tvx)); cbn [bind]; try reflexivity. rewrite IH. destruct (emapM (conv_entry h f et) r); reflexivity.
-    - rewrite IH. destruct (emapM (conv_entry h f et) r); reflexivity. }
+    - destruct (place et (Some tvx)); cbn [bind]; try reflexivity. rewrite IH. reflexivity.
+    - rewrite IH. reflexivity. }
   cbn [to_go under]. rewrite E. reflexivity.
 Qed.
 
@@ -357,11 +336,11 @@ Qed.
 Lemma plain_not_iface t : plain_type t = true -> t <> TIface.
 Proof. intros H E. subst t. discriminate H. Qed.
 
-(* a solid value never becomes nil in the script *)
+(* only a nil pointer becomes nil in the script *)
 Lemma from_solid_nonnil t : plain_type t = true -> forall d v o,
-  wt t v = true -> solid t v = true -> from_go d t v = Ok o -> o <> RNil.
+  wt t v = true -> solid t v = true -> is_ptr t && is_nil v = false -> from_go d t v = Ok o -> o <> RNil.
 Proof.
-  induction t as [|k| | | | |id u IHu|x IHx|x IHx|n x IHx|x IHx|id fs|]; intros Hp d v o Hw Hs E; try discriminate Hp.
+  induction t as [|k| | | | |id u IHu|x IHx|x IHx|n x IHx|x IHx|id fs|]; intros Hp d v o Hw Hs Hn E; try discriminate Hp.
   - destruct v; try discriminate Hw. cbn in E. injection E as <-. discriminate.
   - destruct v; try discriminate Hw. destruct k; cbn in E; try (injection E as <-; discriminate).
     destruct d; injection E as <-; discriminate.
@@ -369,10 +348,11 @@ Proof.
   - destruct v; try discriminate Hw. cbn in E. injection E as <-. discriminate.
   - destruct v; try discriminate Hw. cbn in E. injection E as <-. discriminate.
   - destruct v; try discriminate Hw. cbn in E. injection E as <-. discriminate.
-  - cbn [plain_type] in Hp. apply andb_true_iff in Hp. destruct Hp as (Hp & Hn).
-    destruct v; try discriminate Hw; try discriminate Hs. cbn [wt solid] in *.
-    assert (E' : from_go false x v = Ok o) by (destruct x; try discriminate Hn; cbn [from_go] in E; exact E).
-    exact (IHx Hp false v o Hw Hs E').
+  - cbn [plain_type] in Hp. apply andb_true_iff in Hp. destruct Hp as (Hp & Hns).
+    destruct v; try discriminate Hw; try discriminate Hn. cbn [wt solid] in *.
+    apply andb_true_iff in Hs. destruct Hs as (Hs & Hnn). apply negb_true_iff in Hnn.
+    assert (E' : from_go false x v = Ok o) by (destruct x; try discriminate Hns; cbn [from_go] in E; exact E).
+    exact (IHx Hp false v o Hw Hs Hnn E').
   - cbn [plain_type] in Hp. destruct v; try discriminate Hw.
     + destruct x; try destruct k; cbn in E; injection E as <-; discriminate.
     + destruct (raw_slice x) eqn:R.
@@ -388,9 +368,23 @@ Proof.
     + rewrite from_go_map in E. destruct (mapM _ m); try discriminate E. injection E as <-. discriminate.
 Qed.
 
+(* the converter's result for a value that came from Go: a nil pointer converts to "no value" (the caller stores
+   the zero value), everything else to a value of exactly the original type *)
+Definition tv_of (t : gotype) (v : goval) : tv := if is_ptr t && is_nil v then None else Some (t, norm t v).
+
+Lemma zero_ptr_norm t v : is_ptr t && is_nil v = true -> zero t = norm t v.
+Proof. destruct t; try discriminate. destruct v; try discriminate. reflexivity. Qed.
+
+Lemma conv_elem_of h f et x y : et <> TIface -> to_go h f false et x = Ok (tv_of et y) -> conv_elem h f et x = Ok (norm et y).
+Proof.
+  intros Hi E. unfold conv_elem. rewrite E. cbn [bind]. unfold tv_of. destruct (is_ptr et && is_nil y) eqn:B.
+  - rewrite (zero_ptr_norm et y B). reflexivity.
+  - apply place_same. exact Hi.
+Qed.
+
 Theorem roundtrip t : plain_type t = true -> forall h fuel d v o,
   wt t v = true -> solid t v = true -> from_go d t v = Ok o -> (tdepth t < fuel)%nat ->
-  to_go h fuel false t o = Ok (Some (t, norm t v)).
+  to_go h fuel false t o = Ok (tv_of t v).
 Proof.
   induction t as [|k| | | | |id u IHu|x IHx|x IHx|n x IHx|x IHx|id fs|]; intros Hp h fuel d v o Hw Hs E Hf; try discriminate Hp;
     (destruct fuel as [|f]; [lia|]).
@@ -402,7 +396,7 @@ Proof.
       - rewrite wrap_wrap64 by exact Hw. reflexivity.
       - rewrite wrap_in_range by exact Hw. reflexivity.
       - rewrite wrap_in_range by exact Hw. reflexivity. }
-    apply Ew. destruct k; cbn in E; try (injection E as <-; left; reflexivity).
+    unfold tv_of. cbn [is_ptr andb norm]. apply Ew. destruct k; cbn in E; try (injection E as <-; left; reflexivity).
     destruct d; injection E as <-; right; (split; [reflexivity|]); [left|right]; reflexivity.
   - destruct v; try discriminate Hw. cbn [wt] in Hw. cbn in E. injection E as <-.
     cbn [to_go under to_float]. rewrite Hw. reflexivity.
@@ -411,13 +405,18 @@ Proof.
   - destruct v; try discriminate Hw. cbn in E. injection E as <-. reflexivity.
   - (* pointer *)
     cbn [plain_type] in Hp. apply andb_true_iff in Hp. destruct Hp as (Hp & Hn).
-    destruct v; try discriminate Hw; try discriminate Hs. cbn [wt solid norm tdepth] in *.
-    assert (E' : from_go false x v = Ok o) by (destruct x; try discriminate Hn; cbn [from_go] in E; exact E).
-    pose proof (from_solid_nonnil x Hp false v o Hw Hs E') as Hnn.
-    pose proof (IHx Hp h f false v o Hw Hs E' ltac:(lia)) as IH.
-    destruct x; try discriminate Hn; cbn [to_go under]; (destruct o; try contradiction (Hnn eq_refl)); rewrite IH; reflexivity.
+    destruct v; try discriminate Hw.
+    + (* nil pointer *)
+      assert (o = RNil) as -> by (destruct x; try discriminate Hn; cbn in E; injection E as <-; reflexivity).
+      destruct x; try discriminate Hn; reflexivity.
+    + cbn [wt solid norm tdepth] in *. apply andb_true_iff in Hs. destruct Hs as (Hs & Hnn). apply negb_true_iff in Hnn.
+      assert (E' : from_go false x v = Ok o) by (destruct x; try discriminate Hn; cbn [from_go] in E; exact E).
+      pose proof (from_solid_nonnil x Hp false v o Hw Hs Hnn E') as Hne.
+      pose proof (IHx Hp h f false v o Hw Hs E' ltac:(lia)) as IH. unfold tv_of in IH. rewrite Hnn in IH.
+      unfold tv_of. cbn [is_ptr is_nil andb norm].
+      destruct x; try discriminate Hn; cbn [to_go under]; (destruct o; try contradiction (Hne eq_refl)); rewrite IH; reflexivity.
   - (* slice *)
-    cbn [plain_type tdepth] in *. destruct v; try discriminate Hw.
+    cbn [plain_type tdepth] in *. unfold tv_of. cbn [is_ptr andb]. destruct v; try discriminate Hw.
     + (* nil slice *)
       cbn [norm]. destruct (raw_slice x) eqn:R.
       * destruct x; try destruct k; try discriminate R; cbn in E; injection E as <-; reflexivity.
@@ -438,45 +437,43 @@ Proof.
           - cbn [forallb] in Hw, Hs. apply andb_true_iff in Hw, Hs. destruct Hw as (Hy & Hr). destruct Hs as (Sy & Sr).
             cbn [mapM] in Em. destruct (from_go false x y) as [oy| | |] eqn:Ey; try discriminate Em. cbn [bind] in Em.
             destruct (mapM (from_go false x) r) as [or| | |] eqn:Er; try discriminate Em. injection Em as <-.
-            cbn [mapM map]. unfold conv_elem at 1. rewrite (IHx Hp h f false y oy Hy Sy Ey ltac:(lia)). cbn [bind].
-            rewrite place_same by (apply plain_not_iface; exact Hp). cbn [bind].
+            cbn [mapM map].
+            rewrite (conv_elem_of h f x oy y (plain_not_iface x Hp) (IHx Hp h f false y oy Hy Sy Ey ltac:(lia))). cbn [bind].
             rewrite (IHl Hr Sr or eq_refl). reflexivity. }
         rewrite Eg. reflexivity.
   - (* array *)
-    cbn [plain_type tdepth] in *. destruct v; try discriminate Hw. cbn [wt solid norm] in *.
+    cbn [plain_type tdepth] in *. unfold tv_of. cbn [is_ptr andb]. destruct v; try discriminate Hw. cbn [wt solid norm] in *.
     apply andb_true_iff in Hw. destruct Hw as (Hlen & Hw). apply Nat.eqb_eq in Hlen.
     rewrite from_go_array in E.
     destruct (mapM (from_go false x) l) as [os| | |] eqn:Em; try discriminate E. injection E as <-.
     rewrite to_go_array.
-    assert (Eg : forall room, (length l <= room)%nat ->
-                 amapM (to_go h f false x) x room os = Ok (map (norm x) l) /\ length os = length l).
-    { clear Hlen. revert os Em. induction l as [|y r IHl]; intros os Em room Hroom.
+    assert (Eg : mapM (conv_elem h f x) os = Ok (map (norm x) l) /\ length os = length l).
+    { clear Hlen. revert os Em. induction l as [|y r IHl]; intros os Em.
       - cbn in Em. injection Em as <-. split; reflexivity.
       - cbn [forallb] in Hw, Hs. apply andb_true_iff in Hw, Hs. destruct Hw as (Hy & Hr). destruct Hs as (Sy & Sr).
         cbn [mapM] in Em. destruct (from_go false x y) as [oy| | |] eqn:Ey; try discriminate Em. cbn [bind] in Em.
         destruct (mapM (from_go false x) r) as [or| | |] eqn:Er; try discriminate Em. injection Em as <-.
-        cbn [amapM map length] in *. rewrite (IHx Hp h f false y oy Hy Sy Ey ltac:(lia)). cbn [bind].
-        destruct room as [|room']; [lia|].
-        rewrite place_same by (apply plain_not_iface; exact Hp). cbn [bind].
-        destruct (IHl Hr Sr or eq_refl room' ltac:(lia)) as (E1 & E2). rewrite E1, E2. split; reflexivity. }
-    destruct (Eg n ltac:(lia)) as (E1 & E2). rewrite E1. cbn [bind]. rewrite E2, Hlen, Nat.sub_diag. cbn [repeat].
+        cbn [mapM map length].
+        rewrite (conv_elem_of h f x oy y (plain_not_iface x Hp) (IHx Hp h f false y oy Hy Sy Ey ltac:(lia))). cbn [bind].
+        destruct (IHl Hr Sr or eq_refl) as (E1 & E2). rewrite E1, E2. split; reflexivity. }
+    destruct Eg as (E1 & E2). rewrite E2, Hlen, Nat.ltb_irrefl, E1. cbn [bind]. rewrite Nat.sub_diag. cbn [repeat].
     rewrite app_nil_r. reflexivity.
   - (* map *)
-    cbn [plain_type tdepth] in *. destruct v; try discriminate Hw.
+    cbn [plain_type tdepth] in *. unfold tv_of. cbn [is_ptr andb]. destruct v; try discriminate Hw.
     + cbn in E. injection E as <-. cbn [norm]. rewrite to_go_map. reflexivity.
     + cbn [wt solid norm] in *. rewrite from_go_map in E.
       destruct (mapM _ m) as [os| | |] eqn:Em; try discriminate E. injection E as <-.
       rewrite to_go_map.
-      assert (Eg : emapM (conv_entry h f x) os = Ok (map (fun kv => (fst kv, norm x (snd kv))) m)).
+      assert (Eg : mapM (conv_entry h f x) os = Ok (map (fun kv => (fst kv, norm x (snd kv))) m)).
       { revert os Em. induction m as [|[ky y] r IHl]; intros os Em.
         - cbn in Em. injection Em as <-. reflexivity.
         - cbn [forallb snd] in Hw, Hs. apply andb_true_iff in Hw, Hs. destruct Hw as (Hy & Hr). destruct Hs as (Sy & Sr).
           cbn [mapM fst snd] in Em. destruct (from_go false x y) as [oy| | |] eqn:Ey; try discriminate Em. cbn [bind] in Em.
           destruct (mapM _ r) as [or| | |] eqn:Er; try discriminate Em. injection Em as <-.
-          cbn [emapM map fst snd]. unfold conv_entry at 1. cbn [fst snd].
-          rewrite (IHx Hp h f false y oy Hy Sy Ey ltac:(lia)). cbn [bind].
-          rewrite place_same by (apply plain_not_iface; exact Hp). cbn [bind].
-          rewrite (IHl Hr Sr or eq_refl). reflexivity. }
+          cbn [mapM map fst snd]. unfold conv_entry at 1. cbn [fst snd].
+          pose proof (conv_elem_of h f x oy y (plain_not_iface x Hp) (IHx Hp h f false y oy Hy Sy Ey ltac:(lia))) as Ce.
+          unfold conv_elem in Ce. destruct (to_go h f false x oy) as [tvx| | |]; try discriminate Ce. cbn [bind] in *.
+          rewrite Ce. cbn [bind]. rewrite (IHl Hr Sr or eq_refl). reflexivity. }
       rewrite Eg. reflexivity.
 Qed.
 
@@ -548,36 +545,34 @@ Qed.
 (* ---------- a field written from a script reads back ---------- *)
 
 Definition field_conv_type (ft : gotype) : gotype := match ft with TStruct _ _ | TTime => TPtr ft | _ => ft end.
-Definition stored_as (ft : gotype) (r : option (gotype * goval)) : goval :=
-  match r with
-  | None => zero ft
-  | Some (dt, v) => match ft with TIface => GDyn dt v | _ => v end
-  end.
+(* what Proxy.SetAttr stores for the converter's result: the zero value for "no value", else field_store *)
+Definition stored_val (h : heap) (ft : gotype) (r : tv) : res goval :=
+  match r with None => Ok (zero ft) | Some (dt, v) => field_store h ft dt v end.
 
 Theorem setfield_reads_back fuel h pt c p name x h' :
   set_attr fuel h (RProxy pt c p) name x = Ok h' ->
-  exists i ft r,
+  exists i ft r g,
     field_index (struct_fields (under pt)) name 0 = Some (i, ft) /\
     to_go h fuel true (field_conv_type ft) x = Ok r /\
-    (forall dt v, r = Some (dt, v) -> assignable ft dt = true) /\
-    heap_get h' c (p ++ [i]) = Some (stored_as ft r) /\
-    get_attr h' (RProxy pt c p) name = from_field ft (stored_as ft r) c (p ++ [i]).
+    stored_val h ft r = Ok g /\
+    heap_get h' c (p ++ [i]) = Some g /\
+    get_attr h' (RProxy pt c p) name = from_field ft g c (p ++ [i]).
 Proof.
   unfold set_attr. destruct (field_index (struct_fields (under pt)) name 0) as [[i ft]|] eqn:Ef; [|discriminate].
   fold (field_conv_type ft).
   destruct (to_go h fuel true (field_conv_type ft) x) as [r| | |] eqn:Et; cbn [bind]; try discriminate.
-  intros H. exists i, ft, r. split; [reflexivity|]. split; [exact Et|].
-  destruct r as [[dt v]|].
-  - destruct (assignable ft dt) eqn:Ea; [|discriminate H].
-    destruct (heap_set h c (p ++ [i]) (match ft with TIface => GDyn dt v | _ => v end)) as [h2|] eqn:Eh; [|discriminate H].
-    injection H as <-. split; [intros dt' v' X; injection X as <- <-; exact Ea|].
-    pose proof (heap_get_set _ _ _ _ _ Eh) as Hg. split; [exact Hg|].
-    unfold get_attr. rewrite Ef. cbn [stored_as]. rewrite Hg. reflexivity.
-  - destruct (heap_set h c (p ++ [i]) (zero ft)) as [h2|] eqn:Eh; [|discriminate H].
-    injection H as <-. split; [intros dt' v' X; discriminate X|].
-    pose proof (heap_get_set _ _ _ _ _ Eh) as Hg. split; [exact Hg|].
-    unfold get_attr. rewrite Ef. cbn [stored_as]. rewrite Hg. reflexivity.
+  fold (stored_val h ft r).
+  destruct (stored_val h ft r) as [g| | |] eqn:Es; cbn [bind]; try discriminate.
+  destruct (heap_set h c (p ++ [i]) g) as [h2|] eqn:Eh; [|discriminate].
+  intros H. injection H as <-. exists i, ft, r, g.
+  split; [reflexivity|]. split; [exact Et|]. split; [exact Es|].
+  pose proof (heap_get_set _ _ _ _ _ Eh) as Hg. split; [exact Hg|].
+  unfold get_attr. rewrite Ef, Hg. reflexivity.
 Qed.
+
+(* a struct-valued field now takes a struct built from a script map *)
+Lemma field_store_struct h sid sfs x : field_store h (TStruct sid sfs) (TPtr (TStruct sid sfs)) (GBox x) = Ok x.
+Proof. cbn [field_store]. rewrite assignable_refl. reflexivity. Qed.
 
 (* ---------- the arguments a Go method receives ---------- *)
 
@@ -626,3 +621,7 @@ Lemma to_go_bool_exact h f d b : to_go h (S f) d TBool (RBool b) = Ok (Some (TBo
 Proof. reflexivity. Qed.
 Lemma to_go_float_exact h f d b : to_go h (S f) d TFloat64 (RFloat b) = Ok (Some (TFloat64, GFloat b)).
 Proof. reflexivity. Qed.
+
+(* a list that does not fit the array is rejected with an error, whatever its elements *)
+Lemma to_go_array_too_long h f d n et l : (n < length l)%nat -> to_go h (S f) d (TArray n et) (RList l) = Err.
+Proof. intros H. rewrite to_go_array. apply Nat.ltb_lt in H. rewrite H. reflexivity. Qed.
